@@ -60,7 +60,7 @@ DELTAS = [0, 1, 2, 3, 5, 0.125, 0.5, 0.875, 1.5, 2.25, 2.5, 0.1, 0.3, 1.7,
 
 def dec_delta(d):
   return Fraction(d) if isinstance(d, str) else d
-CONTAINERS = ["list", "tuple", "gen", "stream", "src", "seqproto"]
+CONTAINERS = ["list", "tuple", "gen", "stream", "src", "seqproto", "submix"]
 
 
 class SeqProto(object):
@@ -365,6 +365,11 @@ class C16(Property):
       return self.ls.Stream(list(values))
     if box == "seqproto":
       return SeqProto(values)
+    if box == "submix":
+      # another Streamix (with this one event) played as the event
+      sub = self.ls.Streamix(zero=0)
+      sub.add(0, list(values))
+      return sub
     vals = list(values)
     return SimSource(sid, len(vals), lambda i, v=vals: v[i])
 
@@ -608,6 +613,8 @@ class C16(Property):
       out = cs.copy()
       f = lambda d, v: v
     sets = [100 + 13 * i for i in range(wl["nset"])]
+    if mode in ("direct", "copy") and len(sets) >= 2:
+      sets[1] = None          # None is a value like any other
     reads = list(wl["reads"])
     late = 0
     choices = []
@@ -630,7 +637,7 @@ class C16(Property):
         if not read_since_set:
           res.counters["probe.two-assignments-without-a-read"] += 1
         read_since_set = False
-        events.append("value = %d" % current)
+        events.append("value = %r" % (current,))
         res.counters["op.assign"] += 1
       else:
         k = reads.pop(0)
